@@ -364,6 +364,7 @@ func c19Submit(p *chk.Prog, r *chk.Report) {
 	if vf != nil {
 		g := vf.Graph()
 		n := 0
+		isFailure := chk.GOr(g.GPat(true, `strings.Compare(ST, "failure") == 0`), g.GPat(true, `ST == "failure"`), g.GPat(true, `strings.Compare("failure", ST) == 0`))
 		ast.Inspect(vf.Body, func(nd ast.Node) bool {
 			ss, ok := nd.(*ast.SendStmt)
 			if !ok {
@@ -372,12 +373,17 @@ func c19Submit(p *chk.Prog, r *chk.Report) {
 			n++
 			sites := g.Find(func(m ast.Node) bool { return m == ast.Node(ss) })
 			okk := len(sites) == 1 && vf.MatchNew("reloadEvent{useOld: true}", ss.Value) != nil &&
-				g.Dominated(sites[0], g.GPat(true, `strings.Compare(ST, "failure") == 0`)) &&
+				g.Dominated(sites[0], isFailure) &&
 				g.Dominated(sites[0], g.GPat(false, "TS == *PREV"))
 			if okk {
-				for _, e := range g.EdgesImplying(g.GPat(true, `strings.Compare(ST, "failure") == 0`)) {
-					cond, _ := e.B.Nodes[len(e.B.Nodes)-1].(ast.Expr)
-					if cond == nil || vf.MatchNew(`strings.Compare(ST, "failure") == 0`, cond) == nil {
+				// and a newly reported failure always asks for the re-apply: from the edge that establishes it every
+				// path to the end of the function passes the send
+				es := g.EdgesImplying(isFailure)
+				okk = len(es) > 0
+				for _, e := range es {
+					w := (&chk.Walk{G: g, From: chk.Site{G: g, B: e.B.Succs[e.K], I: 0}, Inclusive: true, HitExit: true,
+						Stop: func(m ast.Node) bool { return m == ast.Node(ss) }}).Run()
+					if w.Found {
 						okk = false
 					}
 				}
@@ -499,10 +505,19 @@ func c19K8s(p *chk.Prog, r *chk.Report) {
 					ts = lf.ObjOf(s.Node.(*ast.AssignStmt).Lhs[0])
 				}
 				isTS := lf.IsObj(ts)
-				okArm := false
-				for _, e := range g.EdgesImplying(chk.GBool(false, isTS)) {
-					if chk.Encloses(recv, e.B.Nodes[len(e.B.Nodes)-1]) {
-						okArm = !g.BranchAlways(e, lf.IsAssignPat("TO", "time.After(D)", chk.H("D", isParamIdx(df, 2)))).Found && !g.BranchAlways(e, lf.IsAssignPat("T", "true", chk.H("T", isTS))).Found
+				// every way out of the receive case leaves a timer armed: it was armed already, or both the channel and
+				// the flag were set (or the input was closed)
+				okVar := func(e ast.Expr) bool {
+					as, isAs := recv.Comm.(*ast.AssignStmt)
+					return isAs && len(as.Lhs) == 2 && lf.ObjOf(e) != nil && lf.ObjOf(e) == lf.ObjOf(as.Lhs[1])
+				}
+				armedG := chk.GOr(chk.GBool(true, isTS), chk.GBool(false, okVar),
+					chk.GAnd(chk.GEvent(lf.IsAssignPat("TO", "time.After(D)", chk.H("D", isParamIdx(df, 2)))), chk.GEvent(lf.IsAssignPat("T", "true", chk.H("T", isTS)))))
+				endsR := g.RegionEnds(caseBlock(g, recv), recv, armedG)
+				okArm := len(endsR) > 0
+				for _, e := range endsR {
+					if !e.OK {
+						okArm = false
 					}
 				}
 				cb := caseBlock(g, timeout)
